@@ -1,0 +1,5 @@
+//go:build !verif
+
+package fsstore
+
+func hook(point string, paths ...string) error { return nil }
